@@ -10,4 +10,7 @@ type rawPathVariable struct {
 	parameters      []PathParameter
 	pathDirective   directive.Directive // to detect and display an error
 	parentDirective directive.Directive
+
+	// parent the very directive (not a copy of it) the Path directive stands in.
+	parent *directive.Directive
 }
